@@ -87,6 +87,10 @@ type StrV struct {
 
 type Tuple []Value
 
+// Poison is the result of merging incompatible cells (dead locals holding abstract values on one path only).
+// Any use is an engine fault.
+type Poison struct{ Why string }
+
 // abstract named types recognised in harness code
 func abstractSort(t types.Type) (Sort, bool) {
 	if n, ok := t.(*types.Named); ok {
